@@ -62,7 +62,7 @@ class Gen:
                     return n
                 continue
             if r.random() < 0.4:
-                n += str(r.randint(0, 9))
+                n += r.choice(['0', '1', '2', '3', '4', '5', '6', '7', '8', '9', '01', '1', '001', '10'])
             if cap:
                 n = n[0].upper() + n[1:]
             k = n.lower().strip('_')
